@@ -474,6 +474,10 @@ func TestDriver(t *testing.T) {
 			d.driveRoots(ntraces, nops)
 		case "accounts":
 			d.driveAccounts(ntraces, nops)
+		case "revisions":
+			d.driveRevisions(ntraces, nops)
+		case "concurrent":
+			d.driveConcurrent(ntraces, nops)
 		case "clientfree":
 			d.driveClientFree(hx.EnvInt("VERIF_MAXN", 4), hx.EnvInt("VERIF_MAXLEN", 4))
 		default:
